@@ -6,7 +6,7 @@
    = unused_sound (UnusedProofs / Stage2Unused) composed with remove_preserves_trace (RemoveProofs). *)
 From Coq Require Import NArith List Bool Arith Lia.
 From Verif Require Import Scope.PySyntax Scope.Finder Scope.PySem Scope.Fragment Scope.AuxProofs Scope.FinderProofs
-                          Scope.UnusedProofs Scope.Remove Scope.RemoveProofs Scope.Stage2Unused.
+                          Scope.UnusedProofs Scope.Remove Scope.RemoveProofs Scope.Stage2Unused Scope.Stage3Erase.
 Import ListNotations.
 
 (* the removal set tidy-imports derives from the report: is (l, i) one of the reported (line, import) pairs *)
@@ -45,6 +45,17 @@ Proof.
   intros bi ns p Hu Hsf Ho Hnd. apply remove_preserves_trace.
   intros ln n l i Hread. destruct (in_report (snd (finder bi ns true p)) l i) eqn:E; auto. exfalso.
   apply in_report_In in E. exact (u2_unused_sound bi ns p Hu Hsf Ho Hnd l i E ln n Hread).
+Qed.
+
+Theorem tidy_remove_preserves_trace_stage3 : forall bi ns p, u3_block p = true -> star_free bi ns = true ->
+  imports_once bi ns p = true -> NoDup (imp_events (bsrcs_block false p)) ->
+  pysem bi ns (tidy_remove bi ns p) = pysem bi ns p /\
+  forall x b, lookup_b x (final_globals bi ns p) = Some b -> removed_src (in_report (snd (finder bi ns true p))) b = false ->
+              lookup_b x (final_globals bi ns (tidy_remove bi ns p)) = Some b.
+Proof.
+  intros bi ns p Hu Hsf Ho Hnd. apply remove_preserves_trace.
+  intros ln n l i Hread. destruct (in_report (snd (finder bi ns true p)) l i) eqn:E; auto. exfalso.
+  apply in_report_In in E. exact (u3_unused_sound bi ns p Hu Hsf Ho Hnd l i E ln n Hread).
 Qed.
 
 (* ---------- what fix_unused_and_missing_imports really calls: scan_for_import_issues(parse_docstrings=True).
@@ -139,4 +150,77 @@ Proof.
   destruct (s2_nodoc p (u2_s2_block p Hu)) as [Hd Hb].
   rewrite (nodoc_finder bi ns p Hd Hb). unfold pysem_doc. rewrite docstrings_remove, Hd. cbn [flat_map]. rewrite !app_nil_r.
   apply (tidy_remove_preserves_trace_stage2 bi ns p Hu Hsf Ho Hnd).
+Qed.
+
+(* ---------- the same for stage 3 ---------- *)
+Lemma s3_doc_of : forall x, s3_stmt x = true -> doc_of x = [].
+Proof. intros [] H; try reflexivity. discriminate. Qed.
+Lemma s3_block_doc_of : forall l, s3_block l = true -> Forall (fun x => doc_of x = []) l.
+Proof.
+  induction l as [|x l IH]; intro H. constructor. cbn in H. apply andb_true_iff in H as [H1 H2].
+  constructor. apply s3_doc_of. exact H1. apply IH. exact H2.
+Qed.
+
+Definition NoDocS3 (x : stmt) : Prop := s3_stmt x = true -> docs_stmt x = [] /\ strings_stmt x = [].
+Lemma nodoc_block3 : forall l, Forall NoDocS3 l -> s3_block l = true ->
+  (fix nested (l : list stmt) : list docstring := match l with [] => [] | x :: r => docs_stmt x ++ nested r end) l = [] /\
+  (fix nested (l : list stmt) : list name := match l with [] => [] | x :: r => strings_stmt x ++ nested r end) l = [].
+Proof.
+  induction l as [|x l IH]; intros HF Hs. split; reflexivity.
+  inversion HF as [|? ? Hx HF']; subst. cbn in Hs. apply andb_true_iff in Hs as [H1 H2].
+  destruct (Hx H1) as [A B]. destruct (IH HF' H2) as [C D]. rewrite A, B, C, D. split; reflexivity.
+Qed.
+Lemma s3_blk_fix' : forall l,
+  (fix blk (l : list stmt) : bool := match l with [] => true | y :: r => s3_stmt y && blk r end) l = s3_block l.
+Proof. reflexivity. Qed.
+
+Lemma nodoc_stmt3 : forall x, NoDocS3 x.
+Proof.
+  induction x using stmt_ind'; intro Hs; try (split; reflexivity); try discriminate.
+  - (* SDef *) cbn [s3_stmt] in Hs. rewrite s3_blk_fix' in Hs. apply andb_true_iff in Hs as [_ Hb].
+    destruct (nodoc_block3 body H Hb) as [A B]. cbn [docs_stmt strings_stmt]. rewrite A, B.
+    rewrite (container_nil body (s3_block_doc_of body Hb)). split; reflexivity.
+  - (* SFor *) cbn [s3_stmt] in Hs. rewrite !s3_blk_fix' in Hs.
+    apply andb_true_iff in Hs as [H123 H4]. apply andb_true_iff in H123 as [_ H3].
+    destruct (nodoc_block3 b H H3) as [A B]. destruct (nodoc_block3 o H0 H4) as [C D].
+    cbn [docs_stmt strings_stmt]. rewrite A, B, C, D. split; reflexivity.
+  - (* SWhile *) cbn [s3_stmt] in Hs. rewrite !s3_blk_fix' in Hs.
+    apply andb_true_iff in Hs as [H12 H3]. apply andb_true_iff in H12 as [_ H2]. apply is_nil_true in H3. subst o.
+    destruct (nodoc_block3 b H H2) as [A B]. cbn [docs_stmt strings_stmt]. rewrite A, B. split; reflexivity.
+  - (* SIf *) cbn [s3_stmt] in Hs. rewrite !s3_blk_fix' in Hs.
+    apply andb_true_iff in Hs as [H12 H3]. apply andb_true_iff in H12 as [_ H2]. apply is_nil_true in H3. subst o.
+    destruct (nodoc_block3 b H H2) as [A B]. cbn [docs_stmt strings_stmt]. rewrite A, B. split; reflexivity.
+  - (* SWith *) cbn [s3_stmt] in Hs. rewrite !s3_blk_fix' in Hs. apply andb_true_iff in Hs as [_ H2].
+    destruct (nodoc_block3 b H H2) as [A B]. cbn [docs_stmt strings_stmt]. rewrite A, B. split; reflexivity.
+  - (* STry *) cbn [s3_stmt] in Hs. rewrite !s3_blk_fix' in Hs.
+    apply andb_true_iff in Hs as [Habc Hd]. apply andb_true_iff in Habc as [Hab Hc]. apply andb_true_iff in Hab as [Ha Hb].
+    apply is_nil_true in Hb. subst hs.
+    destruct (nodoc_block3 b H Ha) as [A B]. destruct (nodoc_block3 o H1 Hc) as [C D]. destruct (nodoc_block3 f H2 Hd) as [E F].
+    cbn [docs_stmt strings_stmt]. rewrite A, B, C, D, E, F. split; reflexivity.
+Qed.
+
+Lemma s3_nodoc : forall p, s3_block p = true -> docstrings_of p = [] /\ brace_ids p = [].
+Proof.
+  intros p H. unfold docstrings_of, brace_ids. rewrite (container_nil p (s3_block_doc_of p H)). cbn [app].
+  induction p as [|x p IH]. split; reflexivity. cbn in H. apply andb_true_iff in H as [H1 H2].
+  destruct (nodoc_stmt3 x H1) as [A B]. destruct (IH H2) as [C D]. cbn [flat_map]. rewrite A, B, C, D. split; reflexivity.
+Qed.
+
+Lemma u3_s3_block : forall p, u3_block p = true -> s3_block p = true.
+Proof.
+  induction p as [|x p IH]; intro H. reflexivity. cbn in H. apply andb_true_iff in H as [H1 H2].
+  cbn. rewrite (proj1 (Stage3Erase.u3_top_split x H1)). apply IH. exact H2.
+Qed.
+
+(* the same with the report fix_unused_and_missing_imports uses (parse_docstrings=True) and the trace that includes the
+   doctest examples: a stage-3 program has no docstring statement, so both coincide with the above *)
+Theorem tidy_fix_preserves_trace_stage3 : forall bi ns p, u3_block p = true -> star_free bi ns = true ->
+  imports_once bi ns p = true -> NoDup (imp_events (bsrcs_block false p)) ->
+  let R := in_report (snd (finder_doc bi ns p)) in
+  pysem_doc bi ns (remove_top R p) = pysem_doc bi ns p.
+Proof.
+  intros bi ns p Hu Hsf Ho Hnd. cbv zeta.
+  destruct (s3_nodoc p (u3_s3_block p Hu)) as [Hd Hb].
+  rewrite (nodoc_finder bi ns p Hd Hb). unfold pysem_doc. rewrite docstrings_remove, Hd. cbn [flat_map]. rewrite !app_nil_r.
+  apply (tidy_remove_preserves_trace_stage3 bi ns p Hu Hsf Ho Hnd).
 Qed.
